@@ -1019,12 +1019,12 @@ impl Entry {
             )
         };
 
+        // Build the new entry on its own: replace_with() would return the green node of
+        // the whole tree, which must not be spliced into the parent as a child
         let new_root = SyntaxNode::new_root_mut(
-            self.0.replace_with(
-                self.0
-                    .green()
-                    .splice_children(position..position, new_children),
-            ),
+            self.0
+                .green()
+                .splice_children(position..position, new_children),
         );
 
         if let Some(parent) = self.0.parent() {
